@@ -221,6 +221,46 @@ func c50(c *Ctx) {
 		for _, r := range returnsOf(cs) {
 			c.Expect(instrDominates(ip, r) && instrDominates(is, r), r, cs, "started-counts-both", "a return of CallStarted is not preceded by both increments")
 		}
+		// the counters bumped are those of an entry that exists: a new entry is created exactly when the lookup missed
+		nLOS := 0
+		for _, g := range c.scope(lrs) {
+			for _, los := range callsIn(g, CalleeX("sync", "Map.LoadOrStore")) {
+				if len(callsIn(g, CalleeX("sync", "Map.Load"))) == 0 {
+					continue
+				}
+				nLOS++
+				c.MustFact(los, "entry-created-only-after-a-miss", Truth(CallRes(CalleeX("sync", "Map.Load"), 1), false))
+				for _, st := range edgeTargetsWhere(g, Truth(CallRes(CalleeX("sync", "Map.Load"), 1), false)) {
+					c.MustPass("missing-entry-always-created", pathQuery{Fn: g, StartBlocks: []*ssa.BasicBlock{st}, Barrier: func(in ssa.Instruction) bool { return in == los.(ssa.Instruction) }, Target: func(in ssa.Instruction) bool {
+						_, isTA := in.(*ssa.TypeAssert)
+						return isTA || isReturn(in)
+					}}, los)
+				}
+			}
+		}
+		c.Expect(nLOS >= 2, nil, nil, "create-on-miss-sites", "fewer create-on-miss sites than on the reviewed tree")
+		// drops: a category entry is written exactly for a non-empty category (uncategorised drops count only in the total)
+		stf := c.fn(lrs, "PerClusterReporter.stats")
+		nCat := 0
+		for _, g := range append([]*ssa.Function{stf}, stf.AnonFuncs...) {
+			for _, in := range instrsWhere(g, func(in ssa.Instruction) bool {
+				mu, ok := in.(*ssa.MapUpdate)
+				return ok && FieldLoad(c.field(lrs, "loadData", "drops"))(mu.Map)
+			}) {
+				nCat++
+				mu := in.(*ssa.MapUpdate)
+				c.MustFact(in, "category-recorded-only-when-named", Cmp(func(v ssa.Value) bool { return v == mu.Key }, token.NEQ, ConstStr("")))
+				c.EnteredOnlyWhenExcept(in.Block().Succs[0], "category-skipped-only-when-unnamed", func(p *ssa.BasicBlock) bool { return p == in.Block() }, Cmp(func(v ssa.Value) bool { return v == mu.Key }, token.EQL, ConstStr("")))
+			}
+		}
+		c.Expect(nCat == 1, nil, stf, "category-drop-site", "expected one per-category drop record")
+		// snapshot bookkeeping lock is released on every exit
+		for _, t := range []string{"PerClusterReporter", "LoadStore"} {
+			muv := c.field(lrs, t, "mu")
+			for _, g := range c.scope(lrs) {
+				c.lockBalance(t+".mu", muv, g)
+			}
+		}
 		cf := c.fn(lrs, "PerClusterReporter.CallFinished")
 		dp := one(c, "decrInProgress in CallFinished", callsIn(cf, m("decrInProgress")))
 		su := one(c, "incrSucceeded in CallFinished", callsIn(cf, m("incrSucceeded")))
